@@ -289,7 +289,11 @@ func (r *layRun) runCase(c layCase) {
 		}
 		if modelTarget != "" && target != modelTarget {
 			// it is the embedding of another address (model: Embed(ext) = v6)
-			r.violate("PtrBack", c, fmt.Sprintf("PTR %s is the embedding of %v but mapped to %q", arpaName(wire), c.Ext, target))
+			key := fmt.Sprintf("layout/PtrBack/%d", c.Plen)
+			if net.IP(wire[:]).To4() != nil {
+				key += "/v4mapped"
+			}
+			r.violateKey(key, "PtrBack", c, fmt.Sprintf("PTR %s is the embedding of %v but mapped to %q", arpaName(wire), c.Ext, target))
 		} else if modelTarget == "" && target != "" {
 			r.res.DriftNote("name with non-zero u/suffix (%v) was translated to %s; the model refuses it", c.Corrupted, target)
 		}
